@@ -359,8 +359,8 @@ class CallMixin:
             raise Unsupported(f"int({v!r})")
         if short == "float":
             v = args[0]
-            if isinstance(v, str) and v in ("inf", "-inf"):
-                return [("val", float(v), st)]
+            if isinstance(v, str) and v == "inf":
+                return [("val", Sym("real", z3.Real("INF")), st)]  # +infinity: a constant above every finite value the check constrains below it
             if isinstance(v, (int, float)):
                 return [("val", float(v), st)]
             return [("val", Sym("real", zreal(v)), st)]
